@@ -351,6 +351,9 @@ type c17Dial struct {
 	Proto  int    `json:"proto"`
 	Host   string `json:"host"`
 	Port   int    `json:"port"`
+	// Before: ports of dials of the same scheme, transport and host that this process made just before (a dial
+	// must not inherit anything from an earlier one)
+	Before []int `json:"before,omitempty"`
 }
 
 func looksLikeSTUN(b []byte) bool {
@@ -362,6 +365,14 @@ func c17DialCheck(c *Ctx, d c17Dial) {
 	c.Eval(1)
 	c.DistinctBytes([]byte(fmt.Sprintf("dial %+v", d)))
 	rp := map[string]interface{}{"kind": "dial", "dial": d}
+	for _, bp := range d.Before {
+		bu := &stun.URI{Scheme: stun.SchemeType(d.Scheme), Proto: stun.ProtoType(d.Proto), Host: d.Host, Port: bp}
+		_ = catch(func() {
+			if bc, berr := stun.DialURI(bu, &stun.DialConfig{Net: &recNet{}}); berr == nil && bc != nil {
+				bc.Close()
+			}
+		})
+	}
 	u := &stun.URI{Scheme: stun.SchemeType(d.Scheme), Proto: stun.ProtoType(d.Proto), Host: d.Host, Port: d.Port}
 	nw := &recNet{}
 	var cl *stun.Client
@@ -581,6 +592,18 @@ func init() {
 						j++
 						if c.Mine(j) {
 							c17DialCheck(c, c17Dial{Scheme: sc, Proto: pr, Host: hp.h, Port: hp.p})
+						}
+					}
+				}
+			}
+			// the same host dialed again with another port / after another host, in one process
+			for sc := 0; sc <= 4; sc++ {
+				for pr := 0; pr <= 2; pr++ {
+					for _, host := range []string{"localhost", "127.0.0.1", "::1"} {
+						j++
+						if c.Mine(j) {
+							c17DialCheck(c, c17Dial{Scheme: sc, Proto: pr, Host: host, Port: 5350, Before: []int{5349}})
+							c17DialCheck(c, c17Dial{Scheme: sc, Proto: pr, Host: host, Port: 443, Before: []int{5349, 5350, 1}})
 						}
 					}
 				}
